@@ -366,11 +366,11 @@ func runC14(c *CaseCtx) (res CaseResult) {
 }
 
 func runC14Static(c *CaseCtx, r *rand.Rand) (res CaseResult) {
-	k := (c.Idx / 16) % (len(staticCases) + 7)
+	k := (c.Idx / 16) % (len(staticCases) + 9)
 	res.NonTrivial = true
 	if k >= len(staticCases) {
 		// non-function values
-		vals := []interface{}{nil, 42, "str", struct{}{}, stMid{}, make(chan int), []int{1}, (*T0)(nil)}
+		vals := []interface{}{nil, 42, "str", struct{}{}, stMid{}, make(chan int), []int{1}, (*T0)(nil), (func(T0) T1)(nil)}
 		x := vals[(k-len(staticCases))%len(vals)]
 		res.Key = fmt.Sprintf("nonfunc %T", x)
 		func() {
